@@ -8,6 +8,14 @@
 // One output line per input line.
 //   case <id>                 -> "case <id>"
 //   tss | tsd | tsw <N> <min> | tsl <n> -> "ok"       fresh output of that schema (tsl: fixed TSL<TS<Int>, n>)
+//   tss:<K> | tsd:<K>         -> "ok"                 the same with KEY type K in {i64 (= plain tss/tsd), i32, date, f32}:
+//                                                     i32/date/f32 keys have alignment < 8, so StableSlotStore selects its
+//                                                     BITMAP representation (two planes constructed/live) for the key store;
+//                                                     i64 keys use the tagged-pointer table.  Keys are read and printed as
+//                                                     integers through a fixed bijection (i32: cast, date: 1970-01-01 + n days,
+//                                                     f32: float(n), |n| < 2^24), so the output format does not depend on K.
+//   reserve <t> <cap>         -> "ok"                 TSS/TSDDataMutationView::reserve (grow the slot table now; no tick)
+//   has <t> <k>               -> "1"|"0"              TSS/TSDOutputView::contains at evaluation time t
 //   lset <t> <i> <v>          -> "ok"                 write child i of the fixed TSL through its own mutation view
 //   add <t> <k> | rem <t> <k> -> "1"|"0"              TSSDataMutationView::add / remove  (changed?)
 //   clear <t> | touch <t>     -> "ok"                 (TSS and TSD)
@@ -17,7 +25,8 @@
 //   push <t> <v>              -> "ok"                 TSWDataMutationView::push
 //   wclear <t>                -> "ok"                 TSWDataMutationView::clear
 //   wclearpush <t> <v>        -> "ok"                 clear + push inside ONE mutation view
-//   dump <t>                  -> observable state as seen by output.view(t)   (formats below)
+//   dump <t>                  -> observable state as seen by output.view(t)   (n = size(), v = iterated elements,
+//                                a/r/m = delta, c = the keys named by v/a/r that pass contains(), vv / d = value-layer surfaces)
 //   slots                     -> slot-level state (diagnostic only: capacity, slot states, raw bits)
 // Errors: "err:invalid-arg" | "err:logic" | "err:range" | "err:other".  Unknown op: "bad-op".
 #include "hgv_common.h"
@@ -29,6 +38,8 @@
 #include <hgraph/types/value/value.h>
 
 #include <algorithm>
+#include <chrono>
+#include <cmath>
 #include <memory>
 #include <optional>
 #include <stdexcept>
@@ -43,6 +54,35 @@ namespace
     Int as_int(const ValueView &v) { return v.checked_as<Int>(); }
 
     struct BadOp {};   // malformed operand: both drivers answer "bad-op"
+
+    // key type of the TSS / TSD under test (chosen by the case header) and the bijection keys <-> integers
+    enum class KeyType { I64, I32, Date, F32 };
+    KeyType g_key = KeyType::I64;
+
+    constexpr std::int64_t KEY_LIMIT = 1 << 24;   // narrow keys: |n| < 2^24 (exact in a float, far inside int32 / date)
+
+    Value make_key(std::int64_t n)
+    {
+        if (g_key != KeyType::I64 && (n <= -KEY_LIMIT || n >= KEY_LIMIT)) { throw BadOp{}; }
+        switch (g_key)
+        {
+        case KeyType::I32: return Value{static_cast<std::int32_t>(n)};
+        case KeyType::Date: return Value{Date{std::chrono::sys_days{std::chrono::days{n}}}};
+        case KeyType::F32: return Value{static_cast<float>(n)};
+        default: return Value{Int{n}};
+        }
+    }
+
+    Int key_int(const ValueView &v)
+    {
+        switch (g_key)
+        {
+        case KeyType::I32: return static_cast<Int>(v.checked_as<std::int32_t>());
+        case KeyType::Date: return static_cast<Int>(std::chrono::sys_days{v.checked_as<Date>()}.time_since_epoch().count());
+        case KeyType::F32: return static_cast<Int>(std::llround(v.checked_as<float>()));
+        default: return v.checked_as<Int>();
+        }
+    }
 
     // times / sizes are naturals, keys / values integers; anything else is a malformed line
     std::int64_t nat(const std::string &s)
@@ -74,14 +114,14 @@ namespace
     std::string keys_of(const Range<ValueView> &range)
     {
         std::vector<std::string> items;
-        for (const auto key : range) { items.push_back(std::to_string(as_int(key))); }
+        for (const auto key : range) { items.push_back(std::to_string(key_int(key))); }
         return join(std::move(items));
     }
 
     std::string set_value(const ValueView &v)
     {
         std::vector<std::string> items;
-        for (const auto key : v.as_set().values()) { items.push_back(std::to_string(as_int(key))); }
+        for (const auto key : v.as_set().values()) { items.push_back(std::to_string(key_int(key))); }
         return join(std::move(items));
     }
 
@@ -90,7 +130,22 @@ namespace
         std::vector<std::string> items;
         for (const auto [key, value] : v.as_map().items())
         {
-            items.push_back(std::to_string(as_int(key)) + ":" + std::to_string(as_int(value)));
+            items.push_back(std::to_string(key_int(key)) + ":" + std::to_string(as_int(value)));
+        }
+        return join(std::move(items));
+    }
+
+    // keys among `candidates` (everything the dump has named) for which contains() answers true
+    template <typename View>
+    std::string contained(const View &view, std::vector<Int> candidates)
+    {
+        std::sort(candidates.begin(), candidates.end());
+        candidates.erase(std::unique(candidates.begin(), candidates.end()), candidates.end());
+        std::vector<std::string> items;
+        for (const Int n : candidates)
+        {
+            Value key = make_key(n);
+            if (view.contains(key.view())) { items.push_back(std::to_string(n)); }
         }
         return join(std::move(items));
     }
@@ -104,6 +159,13 @@ namespace
         out += " v=" + keys_of(set.values());
         out += " a=" + keys_of(set.added());
         out += " r=" + keys_of(set.removed());
+        {
+            std::vector<Int> named;
+            for (const auto key : set.values()) { named.push_back(key_int(key)); }
+            for (const auto key : set.added()) { named.push_back(key_int(key)); }
+            for (const auto key : set.removed()) { named.push_back(key_int(key)); }
+            out += " c=" + contained(set, std::move(named));
+        }
         // the value-layer surfaces: value() as a Set, delta_value() as Bundle{added, removed}
         out += " vv=" + set_value(view.value());
         const auto delta = view.delta_value();
@@ -125,16 +187,16 @@ namespace
         std::vector<std::string> valid_items, invalid_keys, removed_items, modified_items;
         for (const auto [key, child] : dict.items())
         {
-            if (child.valid()) { valid_items.push_back(std::to_string(as_int(key)) + ":" + std::to_string(as_int(child.value()))); }
-            else { invalid_keys.push_back(std::to_string(as_int(key))); }
+            if (child.valid()) { valid_items.push_back(std::to_string(key_int(key)) + ":" + std::to_string(as_int(child.value()))); }
+            else { invalid_keys.push_back(std::to_string(key_int(key))); }
         }
         for (const auto [key, child] : dict.removed_items())
         {
-            removed_items.push_back(std::to_string(as_int(key)) + ":" + (child.valid() ? std::to_string(as_int(child.value())) : "-"));
+            removed_items.push_back(std::to_string(key_int(key)) + ":" + (child.valid() ? std::to_string(as_int(child.value())) : "-"));
         }
         for (const auto [key, child] : dict.modified_items())
         {
-            modified_items.push_back(std::to_string(as_int(key)) + ":" + (child.valid() ? std::to_string(as_int(child.value())) : "-"));
+            modified_items.push_back(std::to_string(key_int(key)) + ":" + (child.valid() ? std::to_string(as_int(child.value())) : "-"));
         }
         out += " v=" + join(std::move(valid_items));
         out += " inv=" + join(std::move(invalid_keys));
@@ -150,6 +212,13 @@ namespace
             out += " kv=" + keys_of(key_set.values());
             out += " ka=" + keys_of(key_set.added());
             out += " kr=" + keys_of(key_set.removed());
+        }
+        {
+            std::vector<Int> named;
+            for (const auto [key, child] : dict.items()) { named.push_back(key_int(key)); }
+            for (const auto key : dict.added_keys()) { named.push_back(key_int(key)); }
+            for (const auto key : dict.removed_keys()) { named.push_back(key_int(key)); }
+            out += " c=" + contained(dict, std::move(named));
         }
         out += " vv=" + map_value(view.value());
         const auto delta = view.delta_value();
@@ -213,7 +282,7 @@ namespace
         for (std::size_t slot = 0; slot < set.slot_capacity(); ++slot)
         {
             if (!set.slot_occupied(slot)) { continue; }
-            out += (first ? "" : ",") + std::to_string(slot) + ":" + std::to_string(as_int(set.at_slot(slot))) +
+            out += (first ? "" : ",") + std::to_string(slot) + ":" + std::to_string(key_int(set.at_slot(slot))) +
                    (set.slot_live(slot) ? "L" : "P");
             first = false;
         }
@@ -262,8 +331,17 @@ int main()
     auto       &registry = TypeRegistry::instance();
     const auto *int_meta = scalar_descriptor<Int>::value_meta();
     const auto *ts_int   = registry.ts(int_meta);
-    const auto *tss_int  = registry.tss(int_meta);
-    const auto *tsd_int  = registry.tsd(int_meta, ts_int);
+    // narrow key types (alignment < 8 -> bitmap slot store); registered like tests/cpp and the wiring layer do
+    const auto *i32_meta  = registry.register_scalar<std::int32_t>("int32");
+    const auto *date_meta = registry.register_scalar<Date>("date");
+    const auto *f32_meta  = registry.register_scalar<float>("float32");
+    auto key_meta_of = [&](const std::string &name, KeyType &type) -> const ValueTypeMetaData * {
+        if (name == "i64") { type = KeyType::I64; return int_meta; }
+        if (name == "i32") { type = KeyType::I32; return i32_meta; }
+        if (name == "date") { type = KeyType::Date; return date_meta; }
+        if (name == "f32") { type = KeyType::F32; return f32_meta; }
+        return nullptr;
+    };
 
     std::unique_ptr<TSOutput> output;
     Kind                      kind = Kind::None;
@@ -276,13 +354,23 @@ int main()
         try
         {
             auto need = [&](Kind k, std::size_t args) { return kind == k && output != nullptr && w.size() == args + 1; };
-            if (op == "case") { output.reset(); kind = Kind::None; std::cout << line << "\n"; }
-            else if (op == "tss" && w.size() == 1) { output = std::make_unique<TSOutput>(*tss_int); kind = Kind::TSS; std::cout << "ok\n"; }
-            else if (op == "tsd" && w.size() == 1) { output = std::make_unique<TSOutput>(*tsd_int); kind = Kind::TSD; std::cout << "ok\n"; }
+            if (op == "case") { output.reset(); kind = Kind::None; g_key = KeyType::I64; std::cout << line << "\n"; }
+            else if ((op == "tss" || op == "tsd" || op.rfind("tss:", 0) == 0 || op.rfind("tsd:", 0) == 0) && w.size() == 1)
+            {
+                KeyType     type = KeyType::I64;
+                const auto *key_meta = key_meta_of(op.size() > 3 ? op.substr(4) : std::string{"i64"}, type);
+                if (key_meta == nullptr) { throw BadOp{}; }
+                const bool is_set = op[2] == 's';
+                output = std::make_unique<TSOutput>(is_set ? *registry.tss(key_meta) : *registry.tsd(key_meta, ts_int));
+                kind   = is_set ? Kind::TSS : Kind::TSD;
+                g_key  = type;
+                std::cout << "ok\n";
+            }
             else if (op == "tsw" && w.size() == 3)
             {
                 const auto period = nat(w[1]), min_period = nat(w[2]);
                 if (period == 0) { throw BadOp{}; }
+                g_key = KeyType::I64;
                 const auto *meta = registry.tsw(int_meta, static_cast<std::size_t>(period), static_cast<std::size_t>(min_period));
                 output = std::make_unique<TSOutput>(*meta);
                 kind   = Kind::TSW;
@@ -292,6 +380,7 @@ int main()
             {
                 const auto size = nat(w[1]);
                 if (size == 0 || size > 64) { throw BadOp{}; }
+                g_key  = KeyType::I64;
                 output = std::make_unique<TSOutput>(*registry.tsl(ts_int, static_cast<std::size_t>(size)));
                 kind   = Kind::TSL;
                 std::cout << "ok\n";
@@ -311,7 +400,7 @@ int main()
             else if ((op == "add" || op == "rem") && need(Kind::TSS, 2))
             {
                 const auto t    = dt(nat(w[1]));
-                Value      key{Int{integer(w[2])}};
+                Value      key  = make_key(integer(w[2]));
                 auto       view = output->view(t);
                 auto       set  = view.as_set();
                 auto       mutation = set.begin_mutation(t);
@@ -339,7 +428,7 @@ int main()
             else if (op == "set" && need(Kind::TSD, 3))
             {
                 const auto t = dt(nat(w[1]));
-                Value      key{Int{integer(w[2])}};
+                Value      key = make_key(integer(w[2]));
                 Value      value{Int{integer(w[3])}};
                 auto       view = output->view(t);
                 auto       dict = view.as_dict();
@@ -350,7 +439,7 @@ int main()
             else if (op == "at" && need(Kind::TSD, 2))
             {
                 const auto t = dt(nat(w[1]));
-                Value      key{Int{integer(w[2])}};
+                Value      key = make_key(integer(w[2]));
                 auto       view = output->view(t);
                 auto       dict = view.as_dict();
                 auto       mutation = dict.begin_mutation(t);
@@ -360,11 +449,39 @@ int main()
             else if (op == "erase" && need(Kind::TSD, 2))
             {
                 const auto t = dt(nat(w[1]));
-                Value      key{Int{integer(w[2])}};
+                Value      key = make_key(integer(w[2]));
                 auto       view = output->view(t);
                 auto       dict = view.as_dict();
                 auto       mutation = dict.begin_mutation(t);
                 std::cout << (mutation.erase(key.view()) ? "1" : "0") << "\n";
+            }
+            else if (op == "reserve" && (need(Kind::TSS, 2) || need(Kind::TSD, 2)))
+            {
+                const auto t   = dt(nat(w[1]));
+                const auto cap = nat(w[2]);
+                if (cap > 4096) { throw BadOp{}; }
+                auto view = output->view(t);
+                if (kind == Kind::TSS)
+                {
+                    auto set      = view.as_set();
+                    auto mutation = set.begin_mutation(t);
+                    mutation.reserve(static_cast<std::size_t>(cap));
+                }
+                else
+                {
+                    auto dict     = view.as_dict();
+                    auto mutation = dict.begin_mutation(t);
+                    mutation.reserve(static_cast<std::size_t>(cap));
+                }
+                std::cout << "ok\n";
+            }
+            else if (op == "has" && (need(Kind::TSS, 2) || need(Kind::TSD, 2)))
+            {
+                const auto t    = dt(nat(w[1]));
+                Value      key  = make_key(integer(w[2]));
+                auto       view = output->view(t);
+                const bool has  = kind == Kind::TSS ? view.as_set().contains(key.view()) : view.as_dict().contains(key.view());
+                std::cout << (has ? "1" : "0") << "\n";
             }
             else if (op == "push" && need(Kind::TSW, 2))
             {
